@@ -299,9 +299,9 @@ def cov_from_api(runs):
 # per-property configuration of engine A: list of (flavour, alphabet, oracles, quick depth, thorough depth)
 API_CHECKS = {
     "C05": [("plain", "mut", "C05", 6, 8)],
-    "C06": [("plain", "frames", "C06", 6, 8), ("plain", "c07", "C06", 5, 7)],
+    "C06": [("plain", "frames", "C06", 5, 7), ("plain", "c07", "C06", 5, 7)],
     "C07": [("plain", "c07", "C07", 6, 9)],
-    "C08": [("plain", "frames", "C08", 6, 8)],
+    "C08": [("plain", "frames", "C08", 5, 7)],
     "C09": [("plain", "params", "C09", 3, 4)],
     "C10": [("plain", "mut", "C10", 6, 8), ("plain", "c07", "C10", 6, 8), ("plain", "params", "C10", 3, 4)],
     "C11": [("plain", "lookup", "C11", 6, 9)],
